@@ -25,6 +25,11 @@ pub struct Case {
     /// earlier calls on the same aligner object
     pub history: Vec<Call>,
     pub call: Call,
+    /// value of the public `Scoring::match_scores` field (a (match, mismatch) summary the banded aligner
+    /// uses as a hint for its k-mer backbone). The unbanded aligner's model is defined by `match_fn`
+    /// alone, whatever summary accompanies it.
+    #[serde(default)]
+    pub match_scores: Option<(i32, i32)>,
 }
 
 pub fn run_call(al: &mut Aligner<TableFn>, c: &Call) -> Alignment {
@@ -37,9 +42,11 @@ pub fn run_call(al: &mut Aligner<TableFn>, c: &Call) -> Alignment {
 }
 
 fn new_aligner(c: &Case) -> Aligner<TableFn> {
+    let mut sc = c.spec.scoring(false);
+    sc.match_scores = c.match_scores;
     match c.capacity {
-        None => Aligner::with_scoring(c.spec.scoring(false)),
-        Some((m, n)) => Aligner::with_capacity_and_scoring(m, n, c.spec.scoring(false)),
+        None => Aligner::with_scoring(sc),
+        Some((m, n)) => Aligner::with_capacity_and_scoring(m, n, sc),
     }
 }
 
@@ -136,6 +143,7 @@ pub fn check(c: &Case) -> R {
     p.add_if(exh, "definition oracle (all sub-range pairs)");
     p.add_if(!exh, "reference DP oracle");
     p.add_if(c.capacity.is_some(), "explicit capacity");
+    p.add_if(c.match_scores.is_some(), "match_scores summary set independently of match_fn");
     Ok(p)
 }
 
@@ -209,7 +217,12 @@ fn strat_sized(max: usize, hist_max: usize) -> BoxedStrategy<Case> {
                 call(sigma, max),
             )
         })
-        .prop_map(|(spec, capacity, history, call)| Case { spec, capacity, history, call })
+        .prop_map(|(spec, capacity, history, call)| Case { spec, capacity, history, call, match_scores: None })
+        .prop_flat_map(|c| (Just(c), proptest::option::weighted(0.25, (0i32..=6, -6i32..=0))))
+        .prop_map(|(mut c, ms)| {
+            c.match_scores = ms;
+            c
+        })
         .boxed()
 }
 
@@ -288,7 +301,7 @@ fn enumerate(t: Tier) -> Box<dyn Iterator<Item = Case>> {
             let (x, y) = (strings[k / n].clone(), strings[k % n].clone());
             let modes: Vec<Mode> = if std_modes { vec![Mode::Custom, Mode::Global, Mode::Semiglobal, Mode::Local] } else { vec![Mode::Custom] };
             let sp = sp.clone();
-            modes.into_iter().map(move |mode| Case { spec: sp.clone(), capacity: None, history: Vec::new(), call: Call { mode, x: B(x.clone()), y: B(y.clone()) } })
+            modes.into_iter().map(move |mode| Case { spec: sp.clone(), capacity: None, history: Vec::new(), call: Call { mode, x: B(x.clone()), y: B(y.clone()) }, match_scores: None })
         })
     }))
 }
